@@ -17,7 +17,8 @@ MANIFEST = dict(
           "returns a time t, |sum_i A_i(0) 2^(-t/T_i) - target| <= 0.1% target for the TRUE summed activity, for every "
           "smallest rest time To (returned_time_accurate, via f = A - target for every rest list, which uses C14's "
           "exact rest decay); the time the property asks for is unique and independent of the rest-time list "
-          "(strict monotonicity of a sum of exponentials).  Two full-strength statements are REFUTED on the faithful "
+          "(strict monotonicity of a sum of exponentials); a Newton step with the true derivative from the left "
+          "of the root moves towards it and does not pass it (convexity).  Two full-strength statements are REFUTED on the faithful "
           "model with witnesses: 'returns 0 exactly when A(0) <= target' (the test is f(0) < target, i.e. A(0) < 2 "
           "target: one product of 3 uCi, target 2 uCi) with the partial results that do hold; 'df is the derivative "
           "of f' (df = (1-To) f', zero for To = 1 h), true when 0 is among the rest times.  Tie: samples x rest-time "
